@@ -69,7 +69,11 @@ class C14Runout(Monitor):
                         own = []
                 deck = list(s.deck_cards)
                 for c in cs:
-                    if known(c) and c not in deck and c not in own:
+                    if not known(c):
+                        continue
+                    if c in deck:
+                        deck.remove(c)      # a card named twice is there only once: pokerkit warns (C06)
+                    elif c not in own:
                         self.clean = False
 
     def _shares(self, s, k):
